@@ -14,6 +14,7 @@ import (
 	"time"
 
 	"github.com/filecoin-project/go-f3/gpbft"
+	"github.com/filecoin-project/go-f3/pmsg"
 	"github.com/filecoin-project/go-f3/verifharness/vcrypto"
 	"github.com/filecoin-project/go-f3/verifharness/vref"
 	"github.com/ipfs/go-cid"
@@ -47,10 +48,14 @@ type Config struct {
 	// DivergentSupp: the divergent participants agree on the base but derive other
 	// supplemental data (commitments) for every instance than the rest of the network.
 	DivergentSupp bool
-	Silent    []gpbft.ActorID // crash-silent members (never run)
-	Byz       []gpbft.ActorID
-	Options   []gpbft.Option
-	Delta     time.Duration
+	// PartialPath: every message reaches honest participants the way the production host
+	// handles a message whose chain it has to fetch first: stripped to its partial form,
+	// partially validated, completed with the chain, fully validated.
+	PartialPath bool
+	Silent      []gpbft.ActorID // crash-silent members (never run)
+	Byz         []gpbft.ActorID
+	Options     []gpbft.Option
+	Delta       time.Duration
 	// Exponent and RebMax repeat the back-off exponent and the largest rebroadcast interval
 	// given in Options (for the stall detector of the closing phase; 0 = unknown)
 	Exponent  float64
@@ -135,24 +140,24 @@ type Node struct {
 	// Byz marks a "personality" of a Byzantine member: a real participant that the
 	// coalition runs once per partition side (two-faced adversary). It is never
 	// checked by monitors and its decisions do not count.
-	Byz      bool
+	Byz       bool
 	Divergent bool
 	Supps     map[uint64]gpbft.SupplementalData // supplemental data the node's host returned per instance
-	Group    int
-	Idx      int
-	ID       gpbft.ActorID
-	P        *gpbft.Participant
-	Alarm    time.Time
-	AlarmSet bool
-	Started  bool
-	Decided  map[uint64]*Decision
-	Bases    map[uint64]*gpbft.TipSet  // base the node entered each instance with
-	Inputs   map[uint64]*gpbft.ECChain // what GetProposal returned
-	Sent     []*Sent                   // every RequestBroadcast, in order
-	byInst   map[gpbft.Instant]*gpbft.GMessage
-	Errors   []string
-	Mon      *Monitor
-	inCall   bool
+	Group     int
+	Idx       int
+	ID        gpbft.ActorID
+	P         *gpbft.Participant
+	Alarm     time.Time
+	AlarmSet  bool
+	Started   bool
+	Decided   map[uint64]*Decision
+	Bases     map[uint64]*gpbft.TipSet  // base the node entered each instance with
+	Inputs    map[uint64]*gpbft.ECChain // what GetProposal returned
+	Sent      []*Sent                   // every RequestBroadcast, in order
+	byInst    map[gpbft.Instant]*gpbft.GMessage
+	Errors    []string
+	Mon       *Monitor
+	inCall    bool
 	// alarm set during the current API call (for deadlines)
 	lastAlarmInCall time.Time
 	alarmInCall     bool
@@ -182,9 +187,10 @@ type World struct {
 	ByzEverSent bool
 	Tracer      *tracer
 	// HoldRound is the round whose COMMITs the "late-commit"/"hijack" profiles withhold
-	HoldRound uint64
-	hijacked  map[[2]uint64]bool
-	pushed    map[[3]uint64]bool
+	HoldRound    uint64
+	hijacked     map[[2]uint64]bool
+	pushed       map[[3]uint64]bool
+	transplanted map[[2]uint64]bool
 	// rules[phase][destination side] of the "rules" profile: 0 free, 1 withheld across sides,
 	// 2 withheld from everybody but the sender; bind rounds <= ruleRounds
 	rules      [8][2]int
@@ -211,6 +217,7 @@ type Stats struct {
 	Sways, SkipsRound, SkipsDecide, Rebroadcasts                                   int
 	LateCommitDecisions                                                            int
 	HijackConverges, HijackCommits, ForgedFloods, SuppVariants, Poisons            int
+	TwoStage, Transplants                                                          int
 	Staged, StagedReceived, StaleEvidence, Kills, KillDecisions                    int
 }
 
@@ -627,7 +634,13 @@ func (w *World) deliverOrStage(p *Pending, stage bool) {
 		return
 	}
 	msg := cloneMsg(p.Msg)
-	vm, err := n.P.ValidateMessage(context.Background(), msg)
+	var vm gpbft.ValidatedMessage
+	var err error
+	if w.Cfg.PartialPath && !n.Byz {
+		vm, err = w.validateInTwoStages(n, msg)
+	} else {
+		vm, err = n.P.ValidateMessage(context.Background(), msg)
+	}
 	if err != nil {
 		if p.FromByz {
 			w.Stats.ByzRejected++
@@ -662,6 +675,34 @@ func (w *World) deliverOrStage(p *Pending, stage bool) {
 	}
 	n.Mon.onDeliver(msg, p.FromByz)
 	n.call("message", func() error { return n.P.ReceiveMessage(context.Background(), vm) })
+}
+
+var nilPMM *pmsg.PartialMessageManager
+
+// validateInTwoStages sends msg through the production two-stage path: ToPartialGMessage
+// (the chains are removed, the value key announced), PartiallyValidateMessage, completion
+// with the chain the sender voted for (as the chain exchange would deliver it: looked up
+// by the announced key) and justification-value inference, FullyValidateMessage.
+func (w *World) validateInTwoStages(n *Node, msg *gpbft.GMessage) (gpbft.ValidatedMessage, error) {
+	chain := cloneChain(msg.Vote.Value)
+	pm, err := nilPMM.ToPartialGMessage(msg)
+	if err != nil {
+		return nil, fmt.Errorf("stripping: %v: %w", err, gpbft.ErrValidationInvalid)
+	}
+	pv, err := n.P.PartiallyValidateMessage(context.Background(), pm)
+	if err != nil {
+		return nil, err
+	}
+	w.Stats.TwoStage++
+	cm := pv.PartialMessage()
+	cm.Vote.Value = chain
+	pmsg.VerifInferJustificationVoteValue(cm)
+	vm, err := n.P.FullyValidateMessage(context.Background(), pv)
+	if err == nil {
+		// what reaches the participant is the completed message
+		*msg = *cm.GMessage
+	}
+	return vm, err
 }
 
 func classOf(err error) string {
